@@ -96,7 +96,13 @@ class StagedSuite(Suite):
                 nodes = list(range(nexp * max(1, ns)))
                 graph = sorted({tuple(sorted(rng.sample(nodes, 2))) for _ in range(rng.randint(1, 3 * len(nodes)))})
                 graph = [list(e) for e in graph]
-            yield gen_case(rng, nexp, rng.randint(1, 8), ns=ns, consistent=rng.random() < 0.5, graph=graph)
+            c = gen_case(rng, nexp, rng.randint(1, 8), ns=ns, consistent=rng.random() < 0.5, graph=graph)
+            if graph is not None:
+                # the activation size around the number of samples: FastLFQ counts the samples in which THIS protein has enough
+                # peptides, not all samples of the experiment
+                ncols = nexp * max(1, ns)
+                c["min_samples"] = rng.choice([2, 3, 10, ncols, max(2, ncols - 1), max(2, ncols - 2)])
+            yield c
 
     def shrink(self, case):
         for i in range(len(case["precs"])):
